@@ -9,6 +9,9 @@ Q2_FlusherOps == [f1 |-> "flush0", f2 |-> "cbPanic"]
 \* third quick config: a panicking callback and a waiting flusher on the same batch
 Q3_SenderOps == [s1 |-> <<"send", "try">>]
 Q3_FlusherOps == [f1 |-> "cbPanic", f2 |-> "flushInf", f3 |-> "cbPanic"]
+\* fourth quick config: the async tokio flush and a callback that blocks the receiver
+Q4_SenderOps == [s1 |-> <<"send", "send", "send">>]
+Q4_FlusherOps == [f1 |-> "flushTokio", f2 |-> "cbPark"]
 \* kill: the receiver future is dropped at an await point
 K_SenderOps == [s1 |-> <<"send", "blockInf">>, s2 |-> <<"try">>]
 K_FlusherOps == [f1 |-> "flush0"]
@@ -20,4 +23,7 @@ T2_FlusherOps == [f1 |-> "flushInf"]
 \* retry exhaustion: one item, every attempt fails
 R_SenderOps == [s1 |-> <<"send">>]
 R_FlusherOps == [f1 |-> "flushInf"]
+\* retry budget is per batch: two items, enough faults to exhaust one batch and fail the next
+R2_SenderOps == [s1 |-> <<"send", "send">>]
+R2_FlusherOps == [f1 |-> "flush0"]
 =============================================================================
